@@ -155,8 +155,9 @@ def run(ctx, R, tier):
     rate_rule(F, R)
     chunk_lookup(F, R)
     # streaming yields the frames the decoder produced: silence only past the end of the audio (the C09 rule)
-    from .c09 import frame_source
+    from .c09 import frame_source, sib_data
     frame_source(F, R)
+    sib_data(F, R, rule='B.C18.sib-data')
 
 
 def rate_rule(F, R):
@@ -435,8 +436,10 @@ def chunk_lookup(F, R):
         for _, desc, lab in p.decisions:
             from ..paths import parse_term
             nm, ar = parse_term(desc)
-            if nm in ('Lt', 'Le') and ar and len(ar) == 2 and 'index' in ar[0] and 'start_index' in ar[1] and bool_label(lab) is not None:
-                before = bool_label(lab) if nm == 'Lt' else None
+            if nm == 'Lt' and ar and len(ar) == 2 and ar[0].strip() == 'index' and 'start_index' in ar[1] and bool_label(lab) is not None:
+                before = bool_label(lab)                 # index < start_index
+            if nm == 'Le' and ar and len(ar) == 2 and 'start_index' in ar[0] and ar[1].strip() == 'index' and bool_label(lab) is not None:
+                before = not bool_label(lab)             # start_index <= index  (written `index >= start_index`)
             if 'checked_sub' in desc and lab in ('None', 'Some', '0', '1', 'Break', 'Continue'):
                 before = lab in ('None', '0', 'Break')
         ret = str(p.ret)
